@@ -168,6 +168,11 @@ class WorldGen(object):
                 doc[self.idkw] = u
             elif r < 0.4:
                 doc[self.idkw] = u + "#"
+            elif r < 0.55:
+                # a document may declare an id that is NOT the URL it is served from (a mirror): it must not
+                # thereby become, or shadow, the document that really lives at the declared URL
+                others = [x for x in self.doc_urls if x != u]
+                doc[self.idkw] = rng.choice(others + ["http://sim.test/canonical/c%d.json" % len(docs)])
             doc.update(self.leaf(allow_bool=False) if rng.random() < 0.5 else {})
             doc["definitions"] = dict((self.names[i], defs[i]) for i in range(k.ndefs) if homes[i] == u)
             docs[u] = doc
